@@ -372,6 +372,9 @@ class Check:
                 self.known_hit.append(key)
                 print("KNOWN-FINDING: property=%s %s" % (self.pid, kf.get("text", key)), flush=True)
             return
+        self.nviol = getattr(self, "nviol", 0) + 1
+        if self.nviol > 12:
+            return      # enough replays written; the count is still reported
         d = os.path.join(VERIF, "replays", self.pid)
         os.makedirs(d, exist_ok=True)
         replay = dict(replay)
@@ -399,7 +402,7 @@ class Check:
         ev = {
             "property_id": self.pid, "tier": self.tier, "seed": self.seed, "level": level,
             "coverage": self.cov, "assumptions": self.assumptions,
-            "wall_s": round(time.time() - self.t0, 2), "violations": len(self.violations),
+            "wall_s": round(time.time() - self.t0, 2), "violations": getattr(self, "nviol", 0),
         }
         self.cov["known_findings_hit"] = self.known_hit
         os.makedirs(os.path.join(VERIF, "evidence"), exist_ok=True)
